@@ -130,6 +130,9 @@ func gen(r *hx.Rand, n int, tier string, emit func(string), st *hx.Stats) {
 	if nb < 12 {
 		nb = 12
 	}
+	if nb > 600 {
+		nb = 600 // thorough tier: the large fan-out cases are slow (48 real Check runs each)
+	}
 	for i := 0; i < nb; i++ {
 		c := r.Fork()
 		line, kind := genBiased(c, i)
